@@ -51,6 +51,9 @@ def events_equal(a, b):
                 if p == ("?",) or q == ("?",):
                     und = True
                     continue
+                if p[0] == "tab" and q[0] == "tab" and (not isinstance(p[1], int) or not isinstance(q[1], int)):
+                    und = True
+                    continue
                 if p != q:
                     if NUMFMT_INSENSITIVE and {p[0], q[0]} == {"s", "raw"}:
                         try:
